@@ -57,7 +57,8 @@ structure Stats where
   flagged : Nat := 0         -- conformant recorded traces on which the monitor reports a violation of this property
   nonconf : Nat := 0         -- recorded traces whose environment part is not conformant (judged only up to that point)
   panics : Nat := 0
-  cross : Nat := 0           -- recorded traces containing a cross-sink call (EnvX.lean)
+  cross : Nat := 0           -- recorded traces containing a cross-peer call (EnvX.lean)
+  wide : Nat := 0            -- … containing one that is not a cross-sink call (compared, not judged)
 
 def specProps : List String := ["C07", "C08", "C09", "C10", "C11", "C12", "C15"]
 
@@ -98,6 +99,7 @@ def judgeLine (prop : String) (line : String) (st : Stats) : IO Stats := do
       if !m.envOk || !m.shapeOk then st := { st with nonconf := st.nonconf + 1 }
       if m.panicked then st := { st with panics := st.panics + 1 }
       if m.cross > 0 then st := { st with cross := st.cross + 1 }
+      if m.wide > 0 then st := { st with wide := st.wide + 1 }
       let p := propNum prop
       let vs := m.g.viols.filter (fun v => v.prop == p)
       -- the functional specification of the operator (Spec.lean), on conformant traces in its domain
@@ -114,7 +116,8 @@ def judgeLine (prop : String) (line : String) (st : Stats) : IO Stats := do
             if evs2.length == rtoks.length && inst.specDomain tr then !(f tr) else false
           | none => false
         else false
-      let bad := !vs.isEmpty || (p == 17 && m.panicked) || specBad
+      -- the oracle judges `legalIn` histories and cross-sink histories; other cross-peer histories only take part in the comparison
+      let bad := (m.wide == 0) && (!vs.isEmpty || (p == 17 && m.panicked) || specBad)
       if bad then
         st := { st with flagged := st.flagged + 1 }
         let what := if specBad then s!"{prop}:specViolated" else if p == 17 then "C17:panic" else " ".intercalate (vs.reverse.map violTxt)
@@ -134,6 +137,20 @@ def main (args : List String) : IO UInt32 := do
     let some inst := instOf name | IO.eprintln s!"unknown instance {name}"; return 2
     let ls := leaves inst.M inst.nSinks depth.toNat! (Sys.init inst.M) [] #[]
     for ms in ls do
+      IO.println s!"{name} | {scriptTxt ms} | {traceTxt inst.M inst.fb ms}"
+    return 0
+  | ["genx", name, depth, mode] =>     -- mode 1: plus cross-sink calls; mode 2: the cross-peer environment (EnvX.lean)
+    let some inst := instOf name | IO.eprintln s!"unknown instance {name}"; return 2
+    let ls := leaves inst.M inst.nSinks depth.toNat! (Sys.init inst.M) [] #[] noFilter mode.toNat!
+    for ms in ls do
+      IO.println s!"{name} | {scriptTxt ms} | {traceTxt inst.M inst.fb ms}"
+    return 0
+  | ["randx", name, count, len, seed, mode] =>
+    let some inst := instOf name | IO.eprintln s!"unknown instance {name}"; return 2
+    let mut r : UInt64 := seed.toNat!.toUInt64 * 6364136223846793005 + 1442695040888963407
+    for _ in [0:count.toNat!] do
+      r := rngNext (r + 1)
+      let ms := randomWalk inst.M inst.nSinks len.toNat! r noFilter mode.toNat!
       IO.println s!"{name} | {scriptTxt ms} | {traceTxt inst.M inst.fb ms}"
     return 0
   | ["gen14", name, depth] =>
@@ -160,7 +177,7 @@ def main (args : List String) : IO UInt32 := do
     return 0
   | ["judge", prop] =>
     let st ← judgeLoop prop (← IO.getStdin) {}
-    IO.println s!"SUMMARY \{\"scripts\": {st.scripts}, \"nested\": {st.nested}, \"max_depth\": {st.maxDepth}, \"events\": {st.events}, \"mismatches\": {st.mismatches}, \"model_drift\": {st.fullMismatches}, \"flagged\": {st.flagged}, \"nonconformant\": {st.nonconf}, \"panics\": {st.panics}, \"cross_sink\": {st.cross}}"
+    IO.println s!"SUMMARY \{\"scripts\": {st.scripts}, \"nested\": {st.nested}, \"max_depth\": {st.maxDepth}, \"events\": {st.events}, \"mismatches\": {st.mismatches}, \"model_drift\": {st.fullMismatches}, \"flagged\": {st.flagged}, \"nonconformant\": {st.nonconf}, \"panics\": {st.panics}, \"cross_peer\": {st.cross}, \"compared_not_judged\": {st.wide}}"
     return 0
   | ["par"] => parLoop (← IO.getStdin); return 0
   | ["pipe"] =>
